@@ -79,6 +79,7 @@ def run_case(case, ctx):
     fs = {}           # path -> [size, mtime, ctime, content]
     rec = {}          # path -> (size, mtime, ctime, cap)
     dirs = {}         # frozenset -> dircap
+    forgotten = set() # caps whose last_upload row was deleted behind the database's back
     real_os = backupdb.os
     backupdb.os = FakeOS(fs)
     classes = set()
@@ -134,7 +135,7 @@ def run_case(case, ctx):
                     why = "mtime"
                 elif m[2] != ctime:
                     why = "ctime"
-                elif m[3] is None:
+                elif m[3] in forgotten:
                     why = "forgot"
                 else:
                     exp = m[3]
@@ -158,12 +159,13 @@ def run_case(case, ctx):
                 if not got:
                     cap = b"URI:CHK:content-%d" % content
                     r.did_upload(cap)
+                    forgotten.discard(cap)      # the upload re-creates the cap's row
                     rec[path] = (size, mtime, ctime, cap)
                 else:
                     r.should_check()
             elif kind == "forget":
                 path = PATHS[o[1]]
-                if path in rec and rec[path][3] is not None:
+                if path in rec and rec[path][3] not in forgotten:
                     cap = rec[path][3]
                     c = bdb.cursor
                     c.execute("SELECT fileid FROM caps WHERE filecap=?", (cap.decode("ascii"),))
@@ -171,9 +173,7 @@ def run_case(case, ctx):
                     if row:
                         c.execute("DELETE FROM last_upload WHERE fileid=?", (row[0],))
                         bdb.connection.commit()
-                        for pp, rr in list(rec.items()):
-                            if rr[3] == cap:
-                                rec[pp] = (rr[0], rr[1], rr[2], None)
+                        forgotten.add(cap)
                         hist.append(("forget", o[1]))
             elif kind == "dir":
                 contents = {u"child%d" % n: b"URI:CHK:content-%d" % cc for (n, cc) in o[1]}
